@@ -18,6 +18,16 @@ inductive Call where
   | lget (pos : Int)
   | lgetMany (pos n : Int)
   | lsize
+  -- documents: `h` is the node a Document handle points at
+  | dput (h : Ts) (k : String) (v : JVal)
+  | dremove (h : Ts) (k : String)
+  | dinsert (h : Ts) (pos : Int) (vs : List JVal)
+  | ddelete (h : Ts) (pos : Int)
+  | ddeleteMany (h : Ts) (pos n : Int)
+  | dupdate (h : Ts) (pos : Int) (vs : List JVal)
+  | dgetObj (h : Ts) (k : String)
+  | dgetArr (h : Ts) (pos n : Int)
+  | dvalue (h : Ts)
 deriving Repr, Inhabited
 
 /-- what a call does before any operation exists: a finished result (read or refusal) or an op body -/
@@ -31,6 +41,98 @@ def firstVal : Ret → Ret
   | r => r
 
 def liveSlice (l : Rga) (pos n : Nat) : List JVal := (l.live.drop pos).take n
+
+inductive NKind where
+  | elem | obj | arr
+deriving DecidableEq, Repr
+
+def Doc.kindOf (d : Doc) (h : Ts) : NKind :=
+  match d.find h with
+  | some ⟨_, _, _, .obj _ _⟩ => .obj
+  | some ⟨_, _, _, .arr _ _⟩ => .arr
+  | _ => .elem
+
+/-- document.assertLocalOp (document.go:435) -/
+def Doc.assertLocal (d : Doc) (h : Ts) (k : NKind) (workOnGarbage : Bool) : Option Nat :=
+  if d.kindOf h ≠ k then some Err.invalidParent
+  else if !workOnGarbage && d.garbage h then some Err.noOp else none
+
+def Doc.arrRga (d : Doc) (h : Ts) : Rga :=
+  match d.findArr h with
+  | some (_, _, size) => ⟨[], size⟩
+  | none => ⟨[], 0⟩
+
+def Doc.liveChildren (d : Doc) (h : Ts) : List Ts :=
+  match d.findArr h with
+  | some (_, sl, _) => (sl.filter (slotLive d)).map (·.2)
+  | none => []
+
+/-- the values a call returns for displaced / deleted nodes, read in the state before the call -/
+def docRet (pre : Doc) (single : Bool) : Ret → Ret
+  | .nodes ids =>
+    if single then .val (ids.head?.map pre.viewAt) else .vals (ids.map pre.viewAt)
+  | r => r
+
+def Call.prepareDoc (d : Doc) : Call → Prep
+  | .dput h k v =>
+    match d.assertLocal h .obj false with
+    | some c => .done (.err c)
+    | none => if v.hasNull then .done (.err Err.illegalParameters) else .op (.docPut h k v) (docRet d true)
+  | .dremove h k =>
+    match d.assertLocal h .obj false with
+    | some c => .done (.err c)
+    | none => .op (.docRemove h k) (docRet d true)
+  | .dinsert h pos vs =>
+    match d.assertLocal h .arr false with
+    | some c => .done (.err c)
+    | none =>
+      match (d.arrRga h).validateInsert pos with
+      | some c => .done (.err c)
+      | none =>
+        if vs.any JVal.hasNull then .done (.err Err.illegalParameters)
+        else .op (.docInsert h pos.toNat none vs) id
+  | .ddelete h pos =>
+    match d.assertLocal h .arr false with
+    | some c => .done (.err c)
+    | none =>
+      match (d.arrRga h).validateRange pos 1 with
+      | some c => .done (.err c)
+      | none => .op (.docDelete h pos.toNat 1 []) (docRet d true)
+  | .ddeleteMany h pos n =>
+    match d.assertLocal h .arr false with
+    | some c => .done (.err c)
+    | none =>
+      match (d.arrRga h).validateRange pos n with
+      | some c => .done (.err c)
+      | none => .op (.docDelete h pos.toNat n.toNat []) (docRet d false)
+  | .dupdate h pos vs =>
+    match d.assertLocal h .arr false with
+    | some c => .done (.err c)
+    | none =>
+      match (d.arrRga h).validateRange pos vs.length with
+      | some c => .done (.err c)
+      | none =>
+        if vs.any JVal.hasNull then .done (.err Err.illegalParameters)
+        else .op (.docUpdate h pos.toNat [] vs) (docRet d false)
+  | .dgetObj h k =>
+    match d.assertLocal h .obj true with
+    | some c => .done (.err c)
+    | none =>
+      match d.findObj h with
+      | some (_, m, _) =>
+        match alFind k m with
+        | some c => if d.garbage c then .done (.ok (.val none)) else .done (.ok (.val (some (d.viewAt c))))
+        | none => .done (.ok (.val none))
+      | none => .done (.ok (.val none))
+  | .dgetArr h pos n =>
+    match d.assertLocal h .arr true with
+    | some c => .done (.err c)
+    | none =>
+      match (d.arrRga h).validateRange pos n with
+      | some c => .done (.err c)
+      | none => .done (.ok (.vals ((((d.liveChildren h).drop pos.toNat).take n.toNat).map d.viewAt)))
+  | .dvalue h => .done (.ok (.val (some (d.viewAt h))))
+  | _ => .done (.err Err.illegalOperation)
 
 def Call.prepare (s : DState) : Call → Prep
   | .inc d => .op (.increase d) id
@@ -94,6 +196,10 @@ def Call.prepare (s : DState) : Call → Prep
   | .lsize =>
     match s with
     | .list l => .done (.ok (.int l.size))
+    | _ => .done (.err Err.illegalOperation)
+  | c =>
+    match s with
+    | .doc d => c.prepareDoc d
     | _ => .done (.err Err.illegalOperation)
 
 def mapOut {α β} (f : α → β) : Outcome α → Outcome β
